@@ -74,6 +74,20 @@ def fuzz_stage(c, cfg):
     for i in range(32):
         with open(os.path.join(corpus, "seed-%02d" % i), "wb") as f:
             f.write(bytes(rnd.getrandbits(8) for _ in range(rnd.choice([0, 8, 16, 64, 256, 1024]))))
+    # ... and the stored corpus (distilled by selftest/fuzz_corpus.py on the unchanged tree): the stage continues from it
+    packed = os.path.join(c["root"], "harness", "fuzz", "seeds", prop + ".tapes")
+    stored = 0
+    if os.path.exists(packed):
+        import struct
+        data = open(packed, "rb").read()
+        pos = 0
+        while pos + 4 <= len(data):
+            (n,) = struct.unpack_from("<I", data, pos)
+            pos += 4
+            with open(os.path.join(corpus, "stored-%05d" % stored), "wb") as f:
+                f.write(data[pos:pos + n])
+            pos += n
+            stored += 1
     ps = []
     t0 = time.time()
     for i in range(procs):
@@ -114,6 +128,7 @@ def fuzz_stage(c, cfg):
             arts.extend((f, err[-3000:]) for f in found)
     stats["wall_s"] = round(time.time() - t0, 1)
     stats["corpus_units"] = len(os.listdir(corpus))
+    stats["stored_corpus_tapes"] = stored
     for lf in sorted(glob.glob(os.path.join(fdir, "log-*.jsonl"))):
         agg.feed(lf, "fuzz-" + os.path.basename(lf).split(".")[0])
     # fuzzer-process crashes: replay outside libFuzzer, in the ordinary worker binary
